@@ -41,6 +41,7 @@ LOCK_TYPES = {"ILock", "Lock", "FairLock", "FastFIFOLock", "ICondition"}
 
 
 class CloseAnalysis(RuleAnalysis):
+    inline_helpers = True  # an extracted private helper (e.g. the closing handshake of aclose) is interpreted in place
     tokens = ("OSError", "Exception", CANCELLED, "BaseException")
 
     def __init__(self, engine, tracked: Iterable[str], registry: "CloserRegistry", own_flags: Iterable[str] = (),
